@@ -375,7 +375,19 @@ def _F27():
         return True
 
 
-REPLAYS = {'F24': _F24, 'F25': _F25, 'F26': _F26, 'F27': _F27, 'F1-linear': _F1('lin'), 'F1-quadratic': _F1('quad'), 'F1-cubic': _F1('cubic'), 'F2': _F2, 'F3': _F3, 'F4': _F4,
+def _F28():
+    """Tanh.forward log-abs-det in float32 at x = 9: -inf before 1d63aad (true value -16.6)"""
+    import nflows.transforms as T
+    for dt, xs in ((torch.float32, [9.0, 17.0, -17.0]), (torch.float64, [19.5, 30.0, -25.0])):
+        x = torch.tensor([xs], dtype=dt)
+        y, ld = T.Tanh()(x)
+        want = sum(2 * (math.log(2.0) - abs(v) - math.log1p(math.exp(-2 * abs(v)))) for v in xs)
+        if not torch.isfinite(ld).all() or abs(ld.item() - want) > 1e-4 * abs(want):
+            return True
+    return False
+
+
+REPLAYS = {'F24': _F24, 'F25': _F25, 'F26': _F26, 'F27': _F27, 'F28': _F28, 'F1-linear': _F1('lin'), 'F1-quadratic': _F1('quad'), 'F1-cubic': _F1('cubic'), 'F2': _F2, 'F3': _F3, 'F4': _F4,
            'F6': _F6, 'F9': _F9, 'F12': _F12, 'F13': _F13, 'F16': _F16, 'F17': _F17}
 
 
